@@ -5,6 +5,34 @@ import json, sys
 TECH = "bounded symbolic execution of the real code: go/ssa of /repo's working tree interpreted over SMT terms, every branch and assertion decided by z3/cvc5 (single-byte conditions by an exact 256-value domain procedure), counterexamples replayed natively"
 
 claimed = {
+ "C10": dict(
+   text="Bounded model checking of the real left-join kernel Table.LeftOptionalJoin (the operation OPTIONAL is planned onto) on two symbolic tables of up to 2 (thorough 3) rows sharing 0, 1 or 2 bindings: every left row appears once per agreeing right row or exactly once NULL-extended, and nothing else appears; which rows agree is decided by the solver. This check found and led to the repair of a genuine defect (an optional clause with disjoint bindings and no match removed every row, commit 57d2ef2); the mixed-kind join column defect is a known finding.",
+   note="Kernel level (exported table API); join cells are one symbolic byte over {a,b}; the planner-level OPTIONAL paths (processClause/addSpecifiedData/tripleToRow) are claimed only where end-to-end harnesses are registered in the evidence.",
+   ref="DESIGN.md §4 C10"),
+ "C11": dict(
+   text="Bounded model checking of the real grouping kernel Table.Reduce (sort by group key, reduce contiguous ranges) with count, count distinct and int64 sum accumulators on up to 3 (thorough 4) symbolic rows: one output row per distinct grouping value, with count, distinct count and sum equal to the reference computed fork-free over the same symbolic cells; sort.Sort is interpreted from its source. With several cell kinds mixed in the grouping column the known group-split defect is reproduced.",
+   note="Kernel level; grouping cells one symbolic byte over {a,b}, summed values symbolic in [-3,3]; float sums and the empty-pattern case are end-to-end obligations, claimed only when registered.",
+   ref="DESIGN.md §4 C11"),
+ "C12": dict(
+   text="Bounded model checking of ORDER BY / LIMIT kernels on the real code: Table.Sort on two int64 cells symbolic over the full 64-bit range must order numerically (through Literal.ToComparableString's %032d, modelled with witness digits and decided by cvc5 bv-as-int) - positives and mixed signs are proved, two negatives are the known finding; time cells from a pool must order chronologically (two known findings); Sort on up to 3-4 symbolic rows with one or two keys in every direction is a permutation with adjacent rows ordered; Table.Limit(i) for every i >= 0 keeps the first min(i,N) rows; the LIMIT clause through the real lexer, parser and hook accepts exactly non-negative int64 texts (this check found the negative-LIMIT panic, repaired in 627d3e6).",
+   note="Kernel and clause level; the interplay with the planner pipeline (limit push-down) is claimed only when end-to-end harnesses are registered; float and time keys from concrete pools.",
+   ref="DESIGN.md §4 C12"),
+ "C13": dict(
+   text="Bounded model checking of the real HAVING evaluators: int64 cell symbolic over the full range against int64 constants (numeric order; two negatives are the known finding), text and extracted-string cells against text constants of up to 2-3 symbolic bytes (lexicographic; one known finding caused by the closing quote), every cell kind against a constant of another kind (never true), time cells against time constants (instants), and six NOT/AND/OR shapes over two symbolic leaves (truth-functional).",
+   note="Evaluator level (exported semantic API); the grammar-derived expression structure and the planner's filtering step are claimed only when registered in the evidence.",
+   ref="DESIGN.md §4 C13"),
+ "C17": dict(
+   text="The grammar tables are finite and are covered completely: for every rule and every pair of alternatives of grammar.BQL() (rule and alternative indices are solver variables, concretized exhaustively) the first elements are tokens and differ, at most one alternative is empty and it is last, every referenced symbol exists, the rule is reachable from START and derives a finite statement, and SemanticBQL() has the same rules, alternatives and elements. For each of the 178 alternatives a witness statement is derived from the tables and run, inside the engine and natively, through the real lexer and parser on a private copy of BQL() with ProcessStart probes: it is accepted taking that alternative.",
+   note="Exhaustive over the tables (exhaustive=true in evidence); witness texts use one sample text per token type.",
+   ref="DESIGN.md §4 C17"),
+ "C18": dict(
+   text="Bounded model checking of the real parser with token types as solver variables (injected through an overlay shim, nothing is written to /repo): for every rule re-rooted as START and every token-type sequence up to L (quick 4, the real START 8; thorough 6/11) the parser and a reference predictive recogniser over the same Grammar value agree on accept/reject and on the number of tokens consumed; START accepts only whole inputs (known finding: tokens after ';' are ignored); the semantic layer accepts no more than the plain grammar; and a parser reused after any accepted or rejected statement extracts from each of nine corpus statements exactly what a fresh parser does (known finding: state left by a rejected INSERT/DELETE).",
+   note="Token texts are fixed samples per type; the second statement comes from a concrete corpus; LL(1) look-ahead.",
+   ref="DESIGN.md §4 C18"),
+ "C19": dict(
+   text="Bounded model checking of the real memoization layer in lock-step with a plain memory store: every history of H (quick 2 after a warming pre-history, thorough 3) operations - add, remove, Triples, TriplesForSubject, Objects, Exist - through one of two handles of the same graph, reads carrying symbolic MaxElements and Offset in [0,3] (cache-key coincidences are decided by the solver through LookupOptions.String/UUID): every read must return the same sequence as the plain store at that moment. The two design defects (Offset missing from the key; other handles not invalidated) are reproduced natively and reported as known findings.",
+   note="Sequential histories only (the interleaving part of the property needs schedule mode and is not claimed yet); data is a concrete pool of three triples.",
+   ref="DESIGN.md §4 C19"),
  "C01": dict(
    text="Bounded model checking of the real memory driver: (A) every history of up to H=3 (thorough 4) NewGraph/Graph/DeleteGraph/GraphNames operations with symbolic names against a reference name list; (B) one graph whose pre-state is built by the real code from Add(b1);Remove(b2), then one arbitrary Add or Remove and interference on a second graph: Exist and the full listing must equal the reference set semantics (component-wise triple identity, each triple once, other graph invisible) for every stored and one fresh symbolic probe triple; (C) drop + re-create starts empty. Triple components are solver variables over a small universe, so which triples coincide is decided by the solver, not sampled.",
    note="Universe {a,b} per component byte; batches of <= 1 (pre-state <= 2 thorough); SHA-1 injective; canonical schedule (single goroutine).",
